@@ -326,7 +326,8 @@ def listings(pm: ProgramModel, ctx: Ctx, it0: Interp, fmc: Any) -> None:
     gbn = pm.method(fmc, "get_feature_by_name")
     if gbn is None:
         raise AnalysisError(rule, "anchor vanished: FeatureModel.get_feature_by_name")
-    feats = [mk_feature(n) for n in ("A", "a", "AB", "B")]
+    feats = [mk_feature(n) for n in ("A", "a", "AB", "B", "'GPS'", "GPS", '"Screen"', "Screen", "rock'", "'n", " lead", "lead",
+                                     "trail ", "trail", "caf\u00e9", "cafe\u0301")]
     it4 = Interp(pm)
     it4.native[gf.qual] = it4.signature_stub(gf, lambda self_, *r: list(feats))
     badn = []
